@@ -22,7 +22,8 @@ EXPLANATION = (
     "wherever the LF exists (the guard of the look-ahead is not stronger than `in range`; shared with C09.R13); (R9) error_envelope only moves positions; (R10) the conversions of a file or string into the input view hand the text over verbatim - no line-splitting or trimming std call on the way, which would merge or drop line ends before rows are counted."
     " (R11) no and_then mapper that can make a ParserError of its own is applied to a seq3..seq6 parser: an error made up after a whole multi-part construct was consumed is reported behind it."
     " (R12 = C20.C with clause P) no parser puts the input position back and then returns an error that is not known to be soft: a fatal error is reported where it was found."
-    " (R13 = C09.R21) the text of a string literal does not run over the end of its line: an unclosed literal is reported in the line that has it, not in a later, correct one.")
+    " (R13 = C09.R21) the text of a string literal does not run over the end of its line: an unclosed literal is reported in the line that has it, not in a later, correct one."
+    " (R14) the input module of the parser never asks the program text for its UTF-8 bytes: the row / column table has one entry per character, as the reader's index counts.")
 NOT_DECIDED = ["that row/column numbers are correct for arbitrary layouts and line endings (value-level)"]
 
 
@@ -497,6 +498,37 @@ def r11_errors_of_a_mapper_are_raised_where_the_text_is(ctx, rule="C11.R11"):
     ctx.require(rule, 5)
 
 
+def r14_positions_are_counted_in_characters(ctx, rule="C11.R14"):
+    """A reported position is (row, column) of a *character* of the program text.  The reader indexes the text by
+    characters, so the table that turns an index into a row and a column has one entry per character: no function of the
+    parser's input module asks the text for its UTF-8 bytes (`as_bytes`, `bytes`, `into_bytes` ...).  A table built from
+    the bytes is longer than the text wherever a character above 127 occurs (an accented comment), and every position
+    behind it lags."""
+    prog = ctx.prog
+    from .c18 import _UTF8_BYTES
+    fns = [f for f in prog.fns.values() if f.crate == "rusty_parser" and f.kind != "const" and f.file
+           and "/src/input/" in f.file]
+    if len(fns) < 5:
+        raise CheckError("%s: the input module of the parser was not found (%d functions)" % (rule, len(fns)))
+    bad = {}
+    for f in fns:
+        owner = prog.enclosing_fn(f) or f
+        for _b, t in f.body.calls():
+            cp = t.get("cpath") or ""
+            if cp.split("::")[-1] in _UTF8_BYTES and ("str" in cp or "String" in cp or "string" in cp):
+                bad.setdefault(owner.id, []).append("%s (line %s)" % (cp.split("::")[-1], t.get("ln")))
+    for oid, why in sorted(bad.items()):
+        o = prog.fns[oid]
+        short = o.path.split("::", 1)[1]
+        ctx.violation(rule, "%s:%s" % (rule, short), o.loc,
+                      "%s reads the program text through its UTF-8 bytes - %s: the reader counts characters, so behind a character "
+                      "above 127 every reported row and column lags" % (short, "; ".join(sorted(set(why))[:3])))
+    ctx.ok(rule, rule + ":input-module-scanned", "-", "%d functions of the input module, none reads the text by bytes" % len(fns)
+           if not bad else "%d functions scanned" % len(fns))
+    ctx.analysed_units(rule, functions=len(fns))
+    ctx.require(rule, 1)
+
+
 def run(ctx):
     common.install(ctx)
     r1_with_pos(ctx)
@@ -517,3 +549,4 @@ def run(ctx):
     c20.r_contract(ctx, c20.r_error_laws(ctx, "C11.R12e"), "C11.R12")
     # an unclosed string literal is reported in the line that has it: the literal's text does not run over the line end
     c09.r21_string_literal_ends_on_its_line(ctx, "C11.R13")
+    r14_positions_are_counted_in_characters(ctx)
